@@ -67,6 +67,86 @@ func recvLooksLike(s *Site, words ...string) bool {
 // Atom classifies a call site that is not entered (callee outside the module or an interface method
 // without module implementation). Module wrappers (Keeper.MintCoins ...) are entered, not classified.
 func (cg *CallGraph) Atom(s *Site) string {
+	// a call of a parametric store accessor (a module helper that reads / writes the store at a location given by its
+	// parameters) IS the store access, located at the caller; the access inside the helper is not counted again
+	if acc := cg.accessorAt(s); acc != nil {
+		return acc.kind
+	}
+	if cg.isParametricInner(s) {
+		return ""
+	}
+	return cg.rawAtom(s)
+}
+
+type storeAccessor struct {
+	kind  string
+	inner *Site
+}
+
+// accessorAt: s is a static call of a module function that is a parametric store accessor.
+func (cg *CallGraph) accessorAt(s *Site) *storeAccessor {
+	if s.Static == nil || s.Invoke || len(s.Callees) == 0 {
+		return nil
+	}
+	return cg.accessorOf(s.Static)
+}
+
+// accessorOf: h accesses the store at a location that cannot be resolved inside h because it depends on h's
+// parameters (getProto(ctx, prefix, key, msg), setProto, iterateProto[T] ...): exactly one kind of access.
+func (cg *CallGraph) accessorOf(h *ssa.Function) *storeAccessor {
+	if cg.accessors == nil {
+		cg.accessors = map[*ssa.Function]*storeAccessor{}
+		cg.accBusy = map[*ssa.Function]bool{}
+	}
+	if a, ok := cg.accessors[h]; ok {
+		return a
+	}
+	if cg.accBusy[h] || h.Blocks == nil || len(h.Params) == 0 || !cg.isModuleFunc(h) || len(cg.Callers[h]) == 0 {
+		return nil
+	}
+	cg.accBusy[h] = true
+	defer delete(cg.accBusy, h)
+	var res *storeAccessor
+	kinds := map[string]bool{}
+	for _, s := range cg.Sites[h] {
+		k := ""
+		if a := cg.accessorAt(s); a != nil {
+			k = a.kind
+		} else {
+			k = cg.rawAtom(s)
+		}
+		if !strings.HasPrefix(k, "STORE.") {
+			continue
+		}
+		if cg.storeLocIn(s).Resolved {
+			continue
+		}
+		kinds[k] = true
+		if res == nil {
+			res = &storeAccessor{kind: k, inner: s}
+		}
+	}
+	if len(kinds) != 1 {
+		res = nil
+	}
+	cg.accessors[h] = res
+	return res
+}
+
+// isParametricInner: s is the unresolved access inside a parametric accessor (counted at the accessor's call sites).
+func (cg *CallGraph) isParametricInner(s *Site) bool {
+	acc := cg.accessorOf(s.Caller)
+	if acc == nil {
+		return false
+	}
+	k := cg.rawAtom(s)
+	if a := cg.accessorAt(s); a != nil {
+		k = a.kind
+	}
+	return strings.HasPrefix(k, "STORE.") && !cg.storeLocIn(s).Resolved
+}
+
+func (cg *CallGraph) rawAtom(s *Site) string {
 	if len(s.Callees) > 0 && !s.Invoke {
 		return ""
 	}
@@ -136,21 +216,71 @@ type StoreLoc struct {
 	Why      string
 }
 
-// StoreLocOf resolves the store value and key of a STORE.* site to a constant byte prefix.
-func (cg *CallGraph) StoreLocOf(s *Site) StoreLoc {
-	var storeV ssa.Value
-	var keyV ssa.Value
+// storeOperands: the store value and the key value of a STORE.* site, in the terms of the function containing s. For a
+// call of a parametric accessor they are the accessor's own operands with its parameters replaced by the arguments.
+func (cg *CallGraph) storeOperands(s *Site) (storeV, keyV ssa.Value) {
+	if acc := cg.accessorAt(s); acc != nil {
+		iv, ik := cg.storeOperands(acc.inner)
+		bind := map[*ssa.Parameter]ssa.Value{}
+		for i, prm := range s.Static.Params {
+			if i < len(s.Common().Args) {
+				bind[prm] = s.Common().Args[i]
+			}
+		}
+		if iv != nil {
+			iv = translateValue(iv, bind, 0)
+		}
+		if ik != nil {
+			ik = translateValue(ik, bind, 0)
+		}
+		return iv, ik
+	}
 	if s.Static != nil && strings.HasSuffix(qualifiedFuncName(s.Static), "PrefixIterator") {
 		a := s.Common().Args
 		if len(a) == 2 {
-			storeV, keyV = a[0], a[1]
+			return a[0], a[1]
 		}
-	} else {
-		storeV = s.Recv()
-		if a := s.Args(); len(a) > 0 && (s.Method == "Get" || s.Method == "Set" || s.Method == "Has" || s.Method == "Delete") {
-			keyV = a[0]
-		}
+		return nil, nil
 	}
+	storeV = s.Recv()
+	if a := s.Args(); len(a) > 0 && (s.Method == "Get" || s.Method == "Set" || s.Method == "Has" || s.Method == "Delete") {
+		keyV = a[0]
+	}
+	return storeV, keyV
+}
+
+// StoreValOf: the value bytes handed to a STORE.set site (in the terms of the function containing s).
+func (cg *CallGraph) StoreValOf(s *Site) ssa.Value {
+	if acc := cg.accessorAt(s); acc != nil {
+		iv := cg.StoreValOf(acc.inner)
+		if iv == nil {
+			return nil
+		}
+		bind := map[*ssa.Parameter]ssa.Value{}
+		for i, prm := range s.Static.Params {
+			if i < len(s.Common().Args) {
+				bind[prm] = s.Common().Args[i]
+			}
+		}
+		return translateValue(iv, bind, 0)
+	}
+	if a := s.Args(); len(a) >= 2 && s.Method == "Set" {
+		return a[1]
+	}
+	return nil
+}
+
+// StoreKeyOf: the key bytes handed to a STORE.get/set/delete site (in the terms of the function containing s).
+func (cg *CallGraph) StoreKeyOf(s *Site) ssa.Value {
+	_, k := cg.storeOperands(s)
+	return k
+}
+
+// StoreLocOf resolves the store value and key of a STORE.* site to a constant byte prefix.
+func (cg *CallGraph) StoreLocOf(s *Site) StoreLoc { return cg.storeLocIn(s) }
+
+func (cg *CallGraph) storeLocIn(s *Site) StoreLoc {
+	storeV, keyV := cg.storeOperands(s)
 	if storeV == nil {
 		return StoreLoc{Why: "no store value"}
 	}
@@ -237,12 +367,20 @@ func (w *World) storePrefix(v ssa.Value, depth int) (string, bool, string) {
 		if fn.Blocks != nil && w.isProdFunc(fn) {
 			var res string
 			n := 0
+			// the helper may take the prefix as a parameter (prefixStore(ctx, keyPrefix)): its result is resolved with
+			// the parameters replaced by this call's arguments
+			bind := map[*ssa.Parameter]ssa.Value{}
+			for i, prm := range fn.Params {
+				if i < len(c.Args) {
+					bind[prm] = c.Args[i]
+				}
+			}
 			for _, ret := range Returns(fn) {
 				rv := retVals(ret)
 				if len(rv) == 0 {
 					continue
 				}
-				p, ok, why := w.storePrefix(rv[0], depth+1)
+				p, ok, why := w.storePrefix(translateValue(rv[0], bind, 0), depth+1)
 				if !ok {
 					return "", false, why
 				}
